@@ -25,6 +25,20 @@ T = {
  'C19': ('model_checking', 'All packet/ack/timeout/duplicate sequences over loop-back IBC channels through the real core handlers and middleware; credit/refund exactly-once oracles; governance pausing the pair while a transfer is in flight; deposits forwarded over IBC.', MC + ' over 09-localhost loop-back channels', '§4 C19'),
  'C20': ('exploration', 'Every <=2-field deviation and every truncation of every registered message / precompile calldata through ValidateBasic, ante and precompile Run (no panic); fee rule enumerated over message lists x gas x fee x exemptions through real CheckTx against an independent specification.', 'bounded-exhaustive input enumeration (deviation-bounded) + exhaustive fee-rule table through real CheckTx', '§4 C20'),
 }
+EXTRA = {
+ 'C01': ' A further job starts after 100 executed events (attestation pruning active); an accepted vote must stay in its attestation until the event is observed.',
+ 'C03': ' The buckets are repeated over the chain name written into the claim x both address formats of every address value.',
+ 'C04': ' Further jobs: inbound bridge calls with the send-call-to memo flag; a bridge token whose symbol reads like the native coin\'s in another letter case.',
+ 'C07': ' The alphabet includes the external chain\'s oracle-set-updated event (oracle-set pruning, timeouts at a far external height) and passed proposals that make the governance account a depositor of another open proposal.',
+ 'C08': ' An externally-owned token that destroys itself exercises pair removal; every index entry must point to a stored pair.',
+ 'C10': ' The switch setting is also reached through a clearing update on a discarded branch and through a raw store update.',
+ 'C11': ' A second job works on the second validator (delegations that arrived by redelegation) with a slash for an older infraction.',
+ 'C14': ' Governance involvement is tried under four period regimes (at once, 13 days in, periods shortened after opening, a longer per-type voting period); source portfolios include fully undelegated sources.',
+ 'C15': ' Deposits for ended proposals and a split yes/veto vote are part of the alphabet.',
+ 'C17': ' Half of the independent processes run with telemetry enabled; a history of objects that tie on every sort key times out at one event.',
+ 'C18': ' Inbound bridge calls are also delivered to plain accounts (k-th token failing) and with the send-call-to memo flag.',
+ 'C19': ' The derived memo-call senders exist as accounts, so successful memo calls are part of the explored space.',
+}
 props = [json.loads(l) for l in open('/verif/properties.jsonl')]
 checks, na = [], []
 for p in props:
@@ -33,7 +47,7 @@ for p in props:
         lvl, text, tech, ref = T[i]
         checks.append(dict(property_id=i, quick_cmd=f'./run {i} quick', thorough_cmd=f'./run {i} thorough', evidence_file=f'/verif/evidence/{i}.json',
             replay_cmd_template='./run replay {path}', engine='fxseam' if i == 'C17' else 'fxmc',
-            level_claimed=dict(category=lvl, text=text, design_ref=ref),
+            level_claimed=dict(category=lvl, text=text + EXTRA.get(i, ''), design_ref=ref),
             level_note='Bounds and alphabet per job are written into the evidence file (coverage.jobs, assumptions); harness shortcuts (handler on store branch, emulated block boundary) are validated by replaying traces through real FinalizeBlock+Commit where the evidence reports traces_validated_against_impl > 0.',
             technique=tech))
     else:
